@@ -17,7 +17,8 @@ RULE = ('one execution = one deterministic measure evaluated on a network A and 
         '(thorough), random permutations + reversal + one transposition for structured / random graphs (highly '
         'symmetric ones over-represented); non-trivial = p is not an automorphism of A')
 EXHAUSTIVE = {'quick': 'all n! node permutations of every labelled undirected graph on <=4 nodes and directed graph on <=3 nodes',
-              'thorough': 'all n! node permutations of every labelled undirected graph on <=5 nodes and directed graph on <=4 nodes'}
+              'thorough': 'all n! node permutations of every labelled undirected graph on <=4 nodes, of a seed-dependent quarter of the '
+                          '1024 graphs on 5 nodes (14 renumberings each for the rest) and of every fourth directed graph on 4 nodes'}
 ASSUMPTIONS = ['assortativity_wei with flag 1-4 raises ValueError on every input (upstream unpacking bug): unobservable, not in the table',
                'rtol 1e-9 / atol 1e-12 with identical NaN and inf positions (renumbering changes summation order)',
                'tie-dependent outputs are excluded (hop matrix of distance_wei, hops/Pmat of distance_wei_floyd, navigation paths)',
@@ -135,7 +136,10 @@ def cases(tier, seed):
     dn = 4 if thorough else 3
     for n in range(2, un + 1):
         for bits in G.all_masks(n, False):
-            out.append({'g': ['mask', n, bits, False], 'directed': False, 'ws': bits % 997, 'perms': 'all'})
+            # (n = 5: all 120 renumberings for a quarter of the 1024 graphs -- which quarter depends on the seed -- and 12
+            #  random ones for the rest; with the history layer the full product took 48 minutes)
+            full = n < 5 or bits % 4 == seed % 4
+            out.append({'g': ['mask', n, bits, False], 'directed': False, 'ws': bits % 997, 'perms': 'all' if full else 12})
     for n in range(2, dn + 1):
         step = 1 if n < 4 else 4
         for bits in list(G.all_masks(n, True))[seed % step::step]:
